@@ -46,6 +46,7 @@ structure Tables where
   schemaDuringScan : Bool
   descRaw : Bool
   toolOmitsDirectives : Bool
+  assureOnce : Bool
   toolEmbedRaw : Bool
   dirArgWrapperAccepted : Bool
   dupScalarDropped : Bool
